@@ -10,6 +10,7 @@ package main
 // interleavings at yield points are enumerated like any other fork.
 
 import (
+	"strings"
 	"fmt"
 	"go/types"
 
@@ -95,7 +96,9 @@ func (s *scheduler) dispatch(me *thread, why string) {
 		panic(targetRuntimeError("deadlock: all logical threads are blocked (" + why + ")"))
 	}
 	var next *thread
-	if len(r) == 1 {
+	if bg := s.background(r); bg != nil {
+		next = bg
+	} else if len(r) == 1 {
 		next = r[0]
 	} else {
 		// canonical order: by id; choice is a decision
@@ -111,6 +114,22 @@ func (s *scheduler) dispatch(me *thread, why string) {
 	if s.dead {
 		panic(pathEnd{"path is being torn down"})
 	}
+}
+
+// background: unless every synchronisation operation is a switch point (verifPreempt), goroutines started by a `go`
+// statement of the code under test (as opposed to the harness's verifSpawn threads) run as soon as some thread gives
+// up the baton, without a scheduling decision: in the harnesses that rely on this they only drain a channel of their
+// own (the VM's Printer) and commute with everything else.
+func (s *scheduler) background(r []*thread) *thread {
+	if s.preemptAll {
+		return nil
+	}
+	for _, t := range r {
+		if strings.HasPrefix(t.name, "go@") {
+			return t
+		}
+	}
+	return nil
 }
 
 // spawn starts f as a new logical thread; the spawner keeps the baton.
@@ -159,7 +178,9 @@ func (s *scheduler) spawn(name string, f func()) {
 				return
 			}
 			var next *thread
-			if len(rn) == 1 {
+			if bg := s.background(rn); bg != nil {
+				next = bg
+			} else if len(rn) == 1 {
 				next = rn[0]
 			} else {
 				func() {
